@@ -23,6 +23,7 @@ var brokenInner = []string{"SELECT 1 ORDER x", "SELECT 1 GROUP x", "WITH", "SELE
 
 var callSuffixes = []string{" AS v", " v", ".x", "[1]", "::Int8", " + 1", "", " IN (1)", " BETWEEN 1 AND 2", " IS NULL", " OVER w", "(1)", " AS v, 2", " FILTER (WHERE 1)", ".1", " OVER (", " IGNORE NULLS", " EXCEPT x", ".1e5", ".99999999999999999999", ".1.2e3", ".0x1", " .5",
 	// parametric calls and their modifiers; a dot-number cut off at the end of the input
+	" REPLACE (x + 1 AS x", " REPLACE (a AS b; SELECT 1", " REPLACE (a AS b)", " APPLY(f)", " APPLY(", " EXCEPT (a", " EXCEPT a",
 	"(x) respect", "(x) ignore, 1", "(x) RESPECT NULLS", "(x) IGNORE NULLS OVER ()", "(x)(y)", ".1e", ".2E"}
 
 var callContexts = [][2]string{{"SELECT ", ""}, {"SELECT 1 WHERE ", ""}, {"SELECT * FROM ", ""}, {"SELECT 1 ORDER BY ", ""}, {"SELECT x, ", " FROM t"}, {"INSERT INTO t SELECT ", ""}, {"SELECT 1 FROM t JOIN ", " ON 1"},
